@@ -93,7 +93,7 @@ def run(repo):
             if (tnames & only_mine) and (used & only_mine) and not (used & only_theirs):
                 ok = True
             elif not tests:
-                wrong = 'is written unconditionally'
+                pass          # hoisted text, a guard clause, a helper: where the text is finally written is not followed
             elif (tnames & only_theirs) or (used & only_theirs):
                 wrong = 'is written for the columns selected by another vtype letter (%s)' % sorted(lits - {letter})
         if not ok and wrong is None:
@@ -116,6 +116,15 @@ def run(repo):
                 for x in ast.walk(node):
                     if isinstance(x, ast.Subscript) and isinstance(x.slice, ast.Slice) and x.slice.upper is None and \
                             isinstance(x.slice.lower, ast.Constant) and x.slice.lower.value == 2 and x.slice.step is None:
+                        if isinstance(node, ast.Assign) and len(node.targets) == 1 and \
+                                isinstance(node.targets[0], (ast.Name, ast.Tuple)) and node.value is not x and \
+                                isinstance(node.value, ast.Tuple):
+                            raise AnalysisError('%s: `%s` is computed ahead of its use (`%s`); the rule judges the slice '
+                                                'where it is taken' % (wf.fq, ntext(x)[:30], ntext(node)[:40]))
+                        if isinstance(node, ast.Assign) and node.value is x and len(node.targets) == 1 and \
+                                isinstance(node.targets[0], ast.Name) and ntext(node.targets[0]) != ntext(x.value):
+                            raise AnalysisError('%s: `%s` is computed ahead of its use (`%s`); the rule judges the slice '
+                                                'where it is taken' % (wf.fq, ntext(x)[:30], ntext(node)[:40]))
                         st_here = self.local_state(node, x, state)
                         guarded = any(pol and ("'+ '" in a or "'+'" in a or '"+' in a) for c in _clauses_of(st_here)
                                       if len(c) == 1 for a, pol in c)
@@ -154,7 +163,15 @@ def run(repo):
                 for h_ in getattr(st_, 'handlers', []):
                     out += own_jumps(h_.body)
         return out
-    skips = own_jumps(rl.body)
+    # only a jump that can be taken before the row's label has been written skips the row
+    label_at = None
+    for k_, st_ in enumerate(rl.body):
+        if any('c{}' in c_.replace(' ', '') or ' c{' in c_ for c_ in _str_consts(st_)):
+            label_at = k_
+            break
+    if label_at is None:
+        raise AnalysisError('lp_export: the statement writing the row label ` c<i>:` was not found in the row loop')
+    skips = own_jumps(rl.body[:label_at + 1])
     ok = not skips
     res.inst({'lp_export': 'Subject To section', 'one_line_per_row': ok}, ok)
     if not ok:
